@@ -3,12 +3,12 @@
 set -u
 P="$1"; ID="$2"; TIER="${3:-quick}"
 cd /repo || exit 9
-git diff --quiet || { echo "repo dirty"; exit 9; }
+[ -z "$(git status --porcelain)" ] || { echo "repo dirty"; exit 9; }
 git apply "$P" || { echo "patch does not apply"; exit 9; }
 # the evidence file of a run on a modified tree must never replace the one describing the unchanged tree
 cp /verif/evidence/$ID.json /tmp/evidence_keep_$ID.json 2>/dev/null
 VERIF_NO_SAMPLES=1 timeout 1500 /verif/run/check.sh "$ID" "$TIER" > /tmp/seed_try.log 2>&1
 rc=$?
 cp /tmp/evidence_keep_$ID.json /verif/evidence/$ID.json 2>/dev/null; rm -f /tmp/evidence_keep_$ID.json
-git checkout -- . 
+git checkout -- . && git clean -fdq
 echo "rc=$rc"; grep -E "^VIOLATION|^  harness=|^ENGINE|^KNOWN|^property=" /tmp/seed_try.log | head -12
